@@ -164,6 +164,43 @@ def canon_model_result(m, script=None, sort_names=False):
     return ("ok", ("open", tuple(out)))
 
 
+def blank_canon(c):
+    """canonical result with every error class erased (FsAgreeDom.blank) and listings sorted"""
+    if c[0] != "ok":
+        return ("err",)
+    v = c[1]
+    if isinstance(v, tuple) and v and v[0] == "open":
+        return ("ok", ("open", tuple(("err",) if h[0] == "err" else h for h in v[1])))
+    if isinstance(v, tuple) and v and v[0] == "names":
+        return ("ok", ("names", tuple(sorted(v[1]))))
+    return c
+
+
+# the witnesses of Props/C18.v C18_*_cell_refuted / C18_rename_over_existing_refuted, on TREES[0] (g = b"xyz12")
+CELL_WITNESSES = [
+    ("rb+write", 0, ("open", ["g"], "rb", [("write", b"Q")])),
+    ("wb+read", 0, ("open", ["g"], "wb", [("write", b"Q"), ("seek", 0), ("read", -1)])),
+    ("ab+seek+write", 0, ("open", ["g"], "ab", [("seek", 0), ("write", b"Q")])),
+    ("r+b-missing", 0, ("open", ["m"], "r+b", [])),
+    ("rename-over-existing", 0, ("rename", ["g"], ["d"])),
+]
+
+
+def cell_witnesses(ctx, mem_w, pio_w):
+    """each excluded cell of the matrix really diverges between real MemoryPathIO and real PathIO"""
+    out = {}
+    for name, ti, op in CELL_WITNESSES:
+        if name not in mem_w or name not in pio_w:
+            continue
+        mb = blank_canon(canon_impl_result(mem_w[name][0], "memory", op))
+        pb = blank_canon(canon_impl_result(pio_w[name][0], "pathio", op))
+        div = not (mb == pb and D.canon(mem_w[name][1]) == pio_w[name][1])
+        out[name] = "diverges" if div else "agrees"
+        if not div:
+            ctx.notes.append(f"matrix cell witness {name} no longer diverges on the real backends (the domain could be widened)")
+    return out
+
+
 def api_class(c):
     """what the API shows: success + value, or failure (every failure is PathIOError)"""
     return c if c[0] == "ok" else ("err",)
@@ -321,12 +358,14 @@ def run_api_level(ctx, tmp, thorough):
     enc_trees = [enc_node(t) for t in TREES]
     m_out = ctx.model([(0, [enc_trees[ti], [enc_op(o) for o in ops]]) for ti, ops in seqs])
     p_out = ctx.model([(1, [enc_trees[ti], [enc_op(o) for o in ops]]) for ti, ops in seqs])
+    # per operation: inside the agreement domain `api_ok` (Model/FsAgreeDom.v), on the tree MemFS has reached
+    ok_out = ctx.model([(5, [enc_trees[ti], [enc_op(o) for o in ops]]) for ti, ops in seqs])
     mem = D.ApiBackend("memory")
     pio = D.ApiBackend("pathio", os.path.join(tmp, "api_p"))
     apio = D.ApiBackend("asyncpathio", os.path.join(tmp, "api_a"))
     async_every = 1 if thorough else 4
     xcheck = []
-    stats = {"ok": 0, "err": 0}
+    stats = {"ok": 0, "err": 0, "inside": 0, "outside": 0, "outside_diverging": 0}
 
     async def go():
         for k, (ti, ops) in enumerate(seqs):
@@ -357,6 +396,26 @@ def run_api_level(ctx, tmp, thorough):
                     ctx.disagree("posixfs-vs-PathIO", {"tree": D.tree_json(tree), "ops": op_json(ops), "step": i},
                                  [str(mc), D.tree_json(mt)], [str(ic), D.tree_json(t_after)])
                     break
+            # ---- (a3) the statement of C18_api_mem_posix_agree_partial on the REAL backends: while the sequence stays
+            # inside the domain the model computes, real MemoryPathIO and real PathIO give the same result-or-failure
+            # (error class blanked, also per call of a handle script) and the same tree
+            ctx.case(("api-matrix",) + key)
+            for i, op in enumerate(ops):
+                if i >= len(real) or i >= len(realp) or i >= len(ok_out[k]):
+                    break
+                mb = blank_canon(canon_impl_result(real[i][0], "memory", op))
+                pb = blank_canon(canon_impl_result(realp[i][0], "pathio", op))
+                same = mb == pb and D.canon(real[i][1]) == realp[i][1]
+                if not ok_out[k][i]:
+                    stats["outside"] += 1
+                    stats["outside_diverging"] += 0 if same else 1
+                    break      # outside the domain the trees may differ from here on
+                stats["inside"] += 1
+                if not same:
+                    ctx.disagree("api-matrix:MemoryPathIO-vs-PathIO-inside-the-proved-domain",
+                                 {"tree": D.tree_json(tree), "ops": op_json(ops), "step": i},
+                                 [str(mb), D.tree_json(D.canon(real[i][1]))], [str(pb), D.tree_json(realp[i][1])])
+                    break
             # ---- (b) real PathIO vs real AsyncPathIO: the API half of the property (exact values)
             if k % async_every == 0:
                 reala = await apio.run(tree, ops)
@@ -375,14 +434,27 @@ def run_api_level(ctx, tmp, thorough):
                 xcheck.append((0, [enc_trees[ti], [enc_op(o) for o in ops]], m_out[k]))
                 xcheck.append((1, [enc_trees[ti], [enc_op(o) for o in ops]], p_out[k]))
 
+    mem_w, pio_w = {}, {}
+
+    async def witnesses():
+        for name, ti, op in CELL_WITNESSES:
+            mem_w[name] = (await mem.run(TREES[ti], [op], ordered=True))[0]
+            pio_w[name] = (await pio.run(TREES[ti], [op]))[0]
+            ctx.traces_impl += 2
+
     loop = asyncio.new_event_loop()
     try:
         loop.run_until_complete(go())
+        loop.run_until_complete(witnesses())
     finally:
         loop.run_until_complete(loop.shutdown_default_executor())
         loop.close()
         pio.cleanup()
         apio.cleanup()
+    ctx.count("api_matrix_ops_inside_domain", stats["inside"])
+    ctx.count("api_matrix_ops_outside_domain", stats["outside"])
+    ctx.count("api_matrix_ops_outside_domain_really_diverging", stats["outside_diverging"])
+    ctx.extra["matrix_cell_witnesses_on_real_code"] = cell_witnesses(ctx, mem_w, pio_w)
     ctx.count("api_ops_ok", stats["ok"])
     ctx.count("api_ops_failed", stats["err"])
     ctx.sample({"stream": "api", "tree": D.tree_json(TREES[0]), "ops": op_json(seqs[len(seqs) // 2][1])})
